@@ -144,7 +144,8 @@ def enum_tables(P, adt_name):
     for fn in P.fns.values():
         for bi in sorted(fn.cfg.reachable):
             for s in fn.blocks[bi]["stmts"]:
-                if s["k"] == "assign" and "cast" in s["rv"] and s["rv"]["cast"] == "IntToInt":
+                if s["k"] == "assign" and "cast" in s["rv"] and s["rv"]["cast"] == "IntToInt" and str(s["rv"].get("to")) in ("u8", "i8", "u16", "u32", "u64"):
+                    # (a cast to usize is an index into a table, not a value written out)
                     # preceded by `_x = discriminant(_y)` with adt == adt_name
                     src = s["rv"]["a"]
                     pl = src.get("move") or src.get("copy")
@@ -170,6 +171,32 @@ def _variant_to_out_spec(P, fn, adt_name):
             r0 = r0.a[1]
         if r0.op == "discr" and B.peel(r0.a[0]).op == "param":
             return {v["name"]: v.get("discr", v["index"]) for v in P.adts[adt_name]["variants"]}
+    if not roots:
+        # table lookup by discriminant (`TAGS[self as usize]`, `f.write_str(NAMES[self.index()])`): the branch-free term
+        # is folded for each variant over the constant table
+        from ..core import ceval as CE
+
+        ev0 = evaluate(fn)
+        pidx = next((i for i in range(1, fn.arg_count + 1) if adt_name in str(fn.locals[i].get("ty") or "")), None)
+        cands = [strip_sites(SP.spec_inline(P, ev0, ev0.ret, 2))]
+        for _, s_ in sorted(ev0.sites.items()):
+            if s_.callee[0].split("::")[-1] in ("write_str", "pad", "serialize_str", "serialize_u8") and len(s_.args) >= 2:
+                cands.append(strip_sites(SP.spec_inline(P, ev0, s_.args[1], 2)))
+        if pidx is not None:
+            for cand in cands:
+                m = {}
+                try:
+                    for v in P.adts[adt_name]["variants"]:
+                        val = ("adt", adt_name, v["name"], ())
+                        env = {T("param", pidx, ev0.pname(pidx)): val}
+                        r = CE.ceval(P, cand, env)
+                        if isinstance(r, bool) or not isinstance(r, (int, bytes)):
+                            raise CE.Unknown("not a tag")
+                        m[v["name"]] = r if isinstance(r, int) else r.decode()
+                except (CE.Unknown, Exception):
+                    continue
+                if m:
+                    return m
     if len(roots) != 1:
         return None
     m = {}
